@@ -184,4 +184,70 @@ theorem quorums_intersect_partial (initial : List Node) (c : CState) (_hr : Reac
   · obtain ⟨x, hx, hq⟩ := one_change_intersect vn vm a hp q₁ q₂ h₁ h₂
     exact ⟨x, hx, hp.mem_iff.mpr (List.mem_cons_of_mem _ hx), hq⟩
 
+/-! ### the monitor's check is sound and complete for the theorem's predicate -/
+
+theorem filter_partition_length (p q : Nat → Bool) (l : List Nat) :
+    (l.filter q).length = ((l.filter p).filter q).length + ((l.filter fun x => !p x).filter q).length := by
+  induction l with
+  | nil => simp
+  | cons a rest ih =>
+    by_cases hp : p a = true <;> by_cases hq : q a = true <;> simp [List.filter_cons, hp, hq, ih] <;> omega
+
+theorem filter_not_length (p : Nat → Bool) (l : List Nat) :
+    (l.filter fun x => !p x).length = l.length - (l.filter p).length := by
+  induction l with
+  | nil => simp
+  | cons a rest ih =>
+    have hle : (rest.filter p).length ≤ rest.length := List.length_filter_le _ _
+    by_cases hp : p a = true <;> simp [List.filter_cons, hp, ih] <;> omega
+
+/-- **Soundness of the monitor's check.** If `canDisjoint a b` is false for duplicate-free voter
+    lists, every majority of `a` meets every majority of `b` in a common voter. (So a case the
+    monitor passes satisfies the predicate of `QuorumsIntersectStatement`.) -/
+theorem canDisjoint_sound (a b : List Nat) (ha : a.Nodup) (hb : b.Nodup) (h : canDisjoint a b = false)
+    (q₁ q₂ : Nat → Bool) (h₁ : IsMajority q₁ a) (h₂ : IsMajority q₂ b) :
+    ∃ x, x ∈ a ∧ x ∈ b ∧ q₁ x = true ∧ q₂ x = true := by
+  apply Classical.byContradiction
+  intro hne
+  let inB : Nat → Bool := fun x => b.contains x
+  let inA : Nat → Bool := fun x => a.contains x
+  let Ia := a.filter inB
+  let Ib := b.filter inA
+  have hperm : Ia.Perm Ib := by
+    rw [List.perm_ext_iff_of_nodup (List.filter_sublist.nodup ha) (List.filter_sublist.nodup hb)]
+    intro x
+    simp only [Ia, Ib, List.mem_filter, inA, inB, List.contains_iff_mem]
+    constructor <;> (intro hx; exact ⟨hx.2, hx.1⟩)
+  have hdis : ∀ x ∈ Ia, ¬ (q₁ x = true ∧ q₂ x = true) := by
+    intro x hx hq
+    have hx' := List.mem_filter.mp hx
+    exact hne ⟨x, hx'.1, by simpa [inB] using hx'.2, hq.1, hq.2⟩
+  have hsum := filter_disjoint_le q₁ q₂ Ia hdis
+  have hq2 : (Ia.filter q₂).length = (Ib.filter q₂).length := (hperm.filter q₂).length_eq
+  have hlenI : Ia.length = Ib.length := hperm.length_eq
+  have hpa := filter_partition_length inB q₁ a
+  have hpb := filter_partition_length inA q₂ b
+  have hra : ((a.filter fun x => !inB x).filter q₁).length ≤ a.length - Ia.length := by
+    rw [← filter_not_length inB a]; exact List.length_filter_le _ _
+  have hrb : ((b.filter fun x => !inA x).filter q₂).length ≤ b.length - Ib.length := by
+    rw [← filter_not_length inA b]; exact List.length_filter_le _ _
+  have hIa : Ia.length ≤ a.length := List.length_filter_le _ _
+  have hIb : Ib.length ≤ b.length := List.length_filter_le _ _
+  unfold IsMajority at h₁ h₂
+  have hcd : canDisjoint a b = true := by
+    unfold canDisjoint
+    show decide (_ ≤ _) = true
+    simp only [decide_eq_true_eq]
+    show (a.length / 2 + 1 - (a.length - Ia.length)) + (b.length / 2 + 1 - (b.length - Ia.length)) ≤ Ia.length
+    have e1 : ((a.filter inB).filter q₁).length = (Ia.filter q₁).length := rfl
+    have e2 : ((b.filter inA).filter q₂).length = (Ib.filter q₂).length := rfl
+    omega
+  rw [hcd] at h
+  cases h
+
+/-- … and complete: if it is true, disjoint majorities exist (witnessed by membership predicates). -/
+example : canDisjoint [1, 2, 3] [3, 4, 5, 1, 2] = true ∧
+    IsMajority (fun x => x == 1 || x == 2) [1, 2, 3] ∧ IsMajority (fun x => x == 3 || x == 4 || x == 5) [3, 4, 5, 1, 2] := by
+  unfold IsMajority; decide
+
 end DEngine.C26
